@@ -67,6 +67,7 @@ const (
 //	r  root                 ^([0-9a-f]{2}){1,32}$, leading bytes of the root
 //	R  root or `-`
 //	N  slot or `-`
+//	q  query slot           ^[0-9]{1,20}$, any uint64 (queries only: nothing is inserted at it)
 //	z  `0` or `1`
 //	k  sink                 nil | rec | fail<k>, k <= 1000
 //	b  balances             `-` or comma separated ^[0-9]{1,12}$
@@ -79,13 +80,13 @@ var grammar = map[string]string{
 	"justify":  "rnrnrB",
 	"pin":      "rn",
 	"head":     "",
-	"findhead": "rn",
-	"chain":    "rn",
-	"closest":  "rn",
-	"canonat":  "rnz",
+	"findhead": "rq",
+	"chain":    "rq",
+	"closest":  "rq",
+	"canonat":  "rqz",
 	"getslot":  "r",
 	"insub":    "rr",
-	"search":   "rnRN",
+	"search":   "rqRN",
 	"just":     "",
 	"fin":      "",
 	"pinq":     "",
@@ -120,6 +121,26 @@ func parseNum(s string, digits int, max uint64) (uint64, bool) {
 	}
 	if v > max {
 		return 0, false
+	}
+	return v, true
+}
+
+// parseU64 accepts 1..20 decimal digits whose value fits in a uint64.
+func parseU64(s string) (uint64, bool) {
+	if len(s) < 1 || len(s) > 20 {
+		return 0, false
+	}
+	var v uint64
+	for i := 0; i < len(s); i++ {
+		c := s[i]
+		if c < '0' || c > '9' {
+			return 0, false
+		}
+		d := uint64(c - '0')
+		if v > (^uint64(0)-d)/10 {
+			return 0, false
+		}
+		v = v*10 + d
 	}
 	return v, true
 }
@@ -173,6 +194,8 @@ func parse(line string) *op {
 		switch g[i] {
 		case 'n':
 			v.n, ok = parseNum(t, 7, maxSlotEpoch)
+		case 'q':
+			v.n, ok = parseU64(t)
 		case 'p':
 			v.n, ok = parseNum(t, 7, maxSpe)
 			ok = ok && v.n >= 1
